@@ -27,6 +27,9 @@ if not names:
 results = []
 for name in names:
     d = os.path.join(root, name)
+    if not os.path.exists(os.path.join(d, "meta.json")):
+        print("skipping %s (not a seeded change directory)" % name)
+        continue
     meta = json.load(open(os.path.join(d, "meta.json")))
     pids = meta.get("checks") or [meta["property"]]
     wt = tempfile.mkdtemp(prefix="vs_%s_" % name, dir="/tmp")
